@@ -270,6 +270,8 @@ func ruleSentinelScrub(c *Ctx, r *R) {
 		visit(call.Call.Args[2], call, nil, 0)
 		if bad == "" {
 			r.ok(key, site, "the value written is the existing value, a scrubbed accessor pair, or a non-accessor descriptor value")
+		} else if c.partOf(call.Parent(), "objectDefineOwnProperty", 0) && c.eClean("SPEC-define-own") {
+			r.ok(key, site, subsumedBy("SPEC-define-own"))
 		} else {
 			r.bad(key, site, bad+": the placeholder &nilGetSetObject (an accessor field given as undefined) can be stored as the property's getter or setter, where it is later invoked or returned to scripts as if it were a function object")
 		}
